@@ -363,6 +363,7 @@ func checkC04(p *Program, r *Report) {
 	// every value encoder, variable width included (shared with C01): the layout of the value array
 	// the scan reads value bytes from is decided per element
 	checkVLenWidth(p, r, "C04.vlen-width")
+	checkLabelBound(p, r, "C04.label-bound")
 }
 
 // checkStop: in ScanFrom, from the branch taken when the callback returns
